@@ -484,8 +484,13 @@ pub fn run_c08(ctx: &Ctx) -> i32 {
             let order = rng.usize_below(5);
             let parts = 1usize << order;
             let plen = *rng.pick(&[4usize, 16, 33, 64]);
-            let n = parts * plen;
-            let warmup = rng.usize_below(5).min(plen);
+            // one block size in eight is not a multiple of the partition count (not valid FLAC either)
+            let n = parts * plen + if parts > 1 && rng.chance(1, 8) { 1 + rng.usize_below(parts - 1) } else { 0 };
+            // mostly a legal warm-up; one case in six claims a predictor order LONGER than a
+            // partition (not valid FLAC: the parser may refuse it - if it accepts it, the counts
+            // of what it built must still be right)
+            let warmup = if rng.chance(1, 6) { plen + 1 + rng.usize_below(3) } else { rng.usize_below(5).min(plen) };
+            let warmup = warmup.min(n);
             let method2 = rng.chance(2, 3);
             let maxp = if method2 { 30 } else { 14 };
             let mut m = BitVec::new();
